@@ -29,6 +29,17 @@ def enc(v):
     return ["bad"]
 
 
+def enc_n(v):
+    """like enc, but with the reading number every leaf reading carries: two readings of one sensor differ"""
+    if isinstance(v, App):
+        return ["app", v.w, enc_n(v.v)]
+    if isinstance(v, dict):
+        return ["dict", [[int(k), enc_n(x)] for k, x in v.items()]]
+    if isinstance(v, tuple) and v[0] == "raw":
+        return ["raw", v[1], v[2] if len(v) > 2 else None]
+    return ["bad"]
+
+
 def run_case(case, tmp):
     from pamiq_core.data.container import DataCollectorsDict
     from pamiq_core.interaction import Agent, Environment, Interaction
@@ -97,9 +108,11 @@ def run_case(case, tmp):
     class RSensor(RecMixin, Sensor):
         def __init__(self, ident):
             self.ident = ident
+            self.reads = 0
 
         def read(self):
-            return ("raw", self.ident)
+            self.reads += 1
+            return ("raw", self.ident, self.reads)      # every reading is a new value
 
     class RActuator(RecMixin, Actuator):
         def __init__(self, ident):
@@ -111,9 +124,11 @@ def run_case(case, tmp):
     class REnv(RecMixin, Environment):
         def __init__(self, ident):
             self.ident = ident
+            self.reads = 0
 
         def observe(self):
-            return ("raw", self.ident)
+            self.reads += 1
+            return ("raw", self.ident, self.reads)
 
         def affect(self, action):
             log.append(["deliver", self.ident, enc(action)])
@@ -240,15 +255,20 @@ def run_case(case, tmp):
         log.clear(); inter.load_state(root)
         loaded = [[e[1], e[2]] for e in log if e[0] == "load"]
         log.clear()
-        obs = enc(inter.environment.observe())
+        first = inter.environment.observe()
+        obs, first_n = enc(first), enc_n(first)
         inter.environment.affect(action(case["action"]))
         delivered = [[e[1], e[2]] for e in log if e[0] == "deliver"]
+        data_calls = [c.data_calls for c in comp]
+        # a later observation must not rewrite an earlier one that somebody still holds
+        second = inter.environment.observe()
+        kept = enc_n(first) == first_n and (enc_n(second) != first_n or "raw" not in json.dumps(first_n))
     except Exception as e:  # noqa: BLE001
         import traceback
         return {"error": f"{type(e).__name__}: {e}", "tb": traceback.format_exc()[-800:]}
     return {"events": [events[k] for k in ["setup", "teardown", "paused", "resumed", "attach_models", "attach_collectors"]],
             "saved": saved, "loaded": loaded, "own": state["own"], "ok": ok, "obs": obs, "delivered": delivered,
-            "composites": [c.data_calls for c in comp]}
+            "composites": data_calls, "first_observation_kept": kept}
 
 
 def main():
